@@ -66,6 +66,7 @@ func (s *store) records() []*metadata {
 func (s *store) current(m *metadata) bool {
 	s.mu.RLock()
 	cur, ok := s.metadata.Get(m.key.Name)
+	verifTrace("current", nil, m.key.Name, m, ok && cur == m)
 	s.mu.RUnlock()
 	return ok && cur == m
 }
@@ -79,8 +80,11 @@ func (s *store) flush() {
 }
 
 func (s *store) flushRecord(m *metadata, now int64) {
+	verifTrace("wait", &now, "", m, true)
 	m.Lock()
+	verifTrace("lock", &now, "", m, true)
 	defer m.Unlock()
+	defer verifTrace("unlock", &now, "", m, true)
 	if !s.current(m) {
 		return
 	}
@@ -115,8 +119,11 @@ func (s *store) gc() {
 }
 
 func (s *store) gcRecord(m *metadata, now int64) {
+	verifTrace("wait", &now, "", m, true)
 	m.Lock()
+	verifTrace("lock", &now, "", m, true)
 	defer m.Unlock()
+	defer verifTrace("unlock", &now, "", m, true)
 	if !s.current(m) {
 		return
 	}
@@ -124,6 +131,7 @@ func (s *store) gcRecord(m *metadata, now int64) {
 		m.unpersist(s.ss)
 		s.mu.Lock()
 		s.metadata.Delete(m.key.Name)
+		verifTrace("unlink", &now, m.key.Name, m, false)
 		s.mu.Unlock()
 		return
 	}
@@ -153,5 +161,6 @@ func (s *store) clear() error {
 	s.mu.Lock()
 	defer s.mu.Unlock()
 	s.metadata.Clear()
+	verifTrace("clear", nil, "", nil, true)
 	return s.ss.Clear()
 }
